@@ -1,4 +1,5 @@
 """C04 - column lineage chains across statements.  Spec: Chain.tla / Trace_Chain.tla."""
+from harness import REPO as _REPO
 import copy
 import multiprocessing as mp
 import os
@@ -36,8 +37,8 @@ def _chunk(cases):
     import warnings
     os.chdir("/tmp")
     warnings.simplefilter("ignore")
-    if "/repo" not in sys.path:
-        sys.path.insert(0, "/repo")
+    if _REPO not in sys.path:
+        sys.path.insert(0, _REPO)
     from sqllineage.core.metadata.dummy import DummyMetaDataProvider
     from sqllineage.runner import LineageRunner
     out = []
